@@ -109,5 +109,12 @@ example : (cleanFileName (fun p => p == 'd' :: '/' :: List.replicate 230 'a') 3
 example : (cleanFileName (fun _ => false) 2 "x/COM1<a>:b. ".toList false ['_']) = .ok "x/COM1_a__b. _".toList := by
   decide
 example : validReplace ['_'] = true ∧ validReplace [] = false ∧ validReplace ['_', '/'] = false := by decide
+-- the hypotheses of `unique_terminates` are satisfiable: a directory holding the two files d/a and d/a_0
+example : ∃ r, cleanFileName (fun p => p == "d/a".toList || p == "d/a_0".toList) 4 "d/a".toList true ['_'] = .ok r :=
+  unique_terminates _ ["d/a".toList, "d/a_0".toList]
+    (by intro p h; simp only [Bool.or_eq_true, beq_iff_eq] at h; rcases h with h | h <;> simp [h])
+    (by simp) 4 (by simp) _ _ _ (by decide)
+example : cleanFileName (fun p => p == "d/a".toList || p == "d/a_0".toList) 4 "d/a".toList true ['_'] =
+    .ok "d/a_1".toList := by decide
 
 end AgVerif.C38
